@@ -94,6 +94,11 @@ def configs(tier, seed):
             out.append(('lincomb/tensor/float64/251x200/%s/%s/generic-scalars' % (order, pat),
                         dict(kind='lincomb', space='tensor', shape=[251, 200], dtype='float64', pattern=pat,
                              order=order, scalars='generic')))
+    for dt in ('longdouble', '>f8', 'float32', 'complex128'):
+        for pat in ('distinct', 'out=x1'):
+            out.append(('lincomb/tensor/%s/251x200/C/%s/generic-scalars' % (dt, pat),
+                        dict(kind='lincomb', space='tensor', shape=[251, 200], dtype=dt, pattern=pat, order='C',
+                             scalars='generic')))
     out.append(('broadcast/power2', dict(kind='broadcast', space='power2', shape=None)))
     out.append(('broadcast/power3', dict(kind='broadcast', space='power3', shape=None)))
     if tier == 'thorough':
@@ -229,6 +234,18 @@ def case(ctx, kind, space, shape=None, dtype='float64', pattern='distinct', orde
         ctx.eq('a+x', a + x, [u + a for u in px])
         ctx.eq('x-a', x - a, [u - a for u in px])
         ctx.eq('a-x', a - x, [a - u for u in px])
+        if space == 'tensor' and len(sp.shape) == 1 and sp.shape[0] <= 4 and not isint:
+            # array-like operands that are not elements (nested lists): both operand orders
+            lst = [2.0, -3.0, 0.5, 4.0][:sp.shape[0]]
+            ctx.eq('list+x', lst + x, [l + u for l, u in zip(lst, px)])
+            ctx.eq('x+list', x + lst, [u + l for l, u in zip(lst, px)])
+            ctx.eq('list-x', lst - x, [l - u for l, u in zip(lst, px)])
+            ctx.eq('x-list', x - lst, [u - l for l, u in zip(lst, px)])
+            ctx.eq('list*x', lst * x, [l * u for l, u in zip(lst, px)])
+            ctx.eq('x*list', x * lst, [u * l for l, u in zip(lst, px)])
+            ctx.eq('x/list', x / lst, [u / l for l, u in zip(lst, px)])
+            ctx.eq('tuple-x', tuple(lst) - x, [l - u for l, u in zip(lst, px)])
+            same('array-like operands')
         ctx.eq('x**2', x ** 2, [u * u for u in px])
         ctx.eq('x**3', x ** 3, [u * u * u for u in px])
         same('unary/scalar')
